@@ -87,6 +87,7 @@ type qCase struct {
 	NilComms bool
 	Gamma    vk.F
 	NegEdge  int // >= 0: this edge gets a negative weight; the call must panic
+	SelfW    vk.F // `self` value of the weighted container (Weight(x,x)): the diagonal A_xx
 }
 
 func qBound(n int, gamma float64) float64 {
@@ -102,6 +103,10 @@ func checkQ(c qCase) *vk.Failure {
 	}
 	vk.Sample("q", c)
 	weighted := c.Weighted || !m.unit
+	if sw := float64(c.SelfW); weighted && sw > 0 && sw <= 64 {
+		m = m.withSelf(sw)
+		vk.Class("q:container-self-weight")
+	}
 	lab := normLabels(n, c.Labels)
 	if c.NilComms {
 		for i := range lab {
@@ -191,6 +196,9 @@ func drawQ(t *rapid.T) qCase {
 	if rapid.IntRange(0, 19).Draw(t, "neg") == 0 {
 		c.NegEdge = rapid.IntRange(0, 1000).Draw(t, "negedge")
 	}
+	if rapid.IntRange(0, 3).Draw(t, "self") == 0 {
+		c.SelfW = vk.F(rapid.SampledFrom([]float64{0.5, 1, 2}).Draw(t, "selfw"))
+	}
 	return c
 }
 
@@ -216,7 +224,7 @@ func TestQ(t *testing.T) {
 		gammas := []float64{1, 0.5, 2.25, 0.1}
 		dir := directed
 		vk.Enumerate(t, name, len(cases), func(i int) qCase {
-			return qCase{G: graphFromMask(cases[i].g.n, dir, cases[i].g.mask), Labels: cases[i].part, Gamma: vk.F(gammas[i%len(gammas)]), Weighted: i%3 == 0, NegEdge: -1}
+			return qCase{G: graphFromMask(cases[i].g.n, dir, cases[i].g.mask), Labels: cases[i].part, Gamma: vk.F(gammas[i%len(gammas)]), Weighted: i%3 == 0, NegEdge: -1, SelfW: vk.F([]float64{0, 0, 1, 0.5}[i%4])}
 		}, checkQ)
 	}
 	vk.Run(t, "q", vk.Opts{Quick: 8000, Thorough: 180000}, drawQ, checkQ)
@@ -230,7 +238,7 @@ type mxCase struct {
 	Directed bool
 	IDMode   int
 	Layers   [][]edgeT
-	Unweight []bool // layer held in an unweighted container (only honoured for unit weights and positive layer weight)
+	Unweight []bool // layer held in a container that is not graph.Weighted (only honoured for unit weights)
 	LayerW   []vk.F // nil: equally weighted
 	Res      []vk.F // nil, one element, or one per layer
 	Labels   []int
@@ -278,34 +286,59 @@ func newMxModel(c mxCase) *mxModel {
 	return mm
 }
 
-// build returns the gonum multiplex: layers with negative layer weight hold
-// negated edge weights, as the documentation requires.
+// unweightedLayer reports whether layer l is held in a container that does not
+// implement graph.Weighted (only possible when all its weights are 1). Such a
+// layer has unit weight on every edge whatever the sign of the layer weight.
+func (mm *mxModel) unweightedLayer(c mxCase, l int) bool {
+	return l < len(c.Unweight) && c.Unweight[l] && mm.layers[l].unit
+}
+
+// onlyUndirected / onlyDirected hide every method that is not part of the
+// graph interface (in particular Weight), as a user type behind graph.Graph.
+type onlyUndirected struct{ graph.Undirected }
+type onlyDirected struct{ graph.Directed }
+
+// layerGraph builds layer l: weighted layers hold sign-matched edge weights
+// (negated for a negative layer weight, as the documentation requires);
+// unweighted layers rotate through simple.{Und,D}irectedGraph, graph.Undirect
+// over a directed graph and an interface-hiding wrapper of a weighted graph.
+func (mm *mxModel) layerGraph(c mxCase, l int) graph.Graph {
+	m := mm.layers[l]
+	sign := 1.0
+	if mm.w[l] < 0 {
+		sign = -1
+	}
+	if !mm.unweightedLayer(c, l) {
+		return m.buildWeightedSigned(sign)
+	}
+	switch (l + m.n + len(m.edges)) % 3 {
+	case 1:
+		if !m.directed {
+			dm := *m
+			dm.directed = true
+			return graph.Undirect{G: dm.buildUnweighted().(graph.Directed)}
+		}
+	case 2:
+		if m.directed {
+			return onlyDirected{m.buildWeightedSigned(sign).(graph.Directed)}
+		}
+		return onlyUndirected{m.buildWeightedSigned(sign).(graph.Undirected)}
+	}
+	return m.buildUnweighted()
+}
+
 func (mm *mxModel) build(c mxCase) (community.Multiplex, error) {
 	d := len(mm.layers)
 	if c.Directed {
 		ls := make([]graph.Directed, d)
-		for l, m := range mm.layers {
-			switch {
-			case mm.w[l] < 0:
-				ls[l] = m.buildWeightedSigned(-1).(graph.Directed)
-			case m.unit && l < len(c.Unweight) && c.Unweight[l]:
-				ls[l] = m.buildUnweighted().(graph.Directed)
-			default:
-				ls[l] = m.buildWeighted().(graph.Directed)
-			}
+		for l := range mm.layers {
+			ls[l] = mm.layerGraph(c, l).(graph.Directed)
 		}
 		return community.NewDirectedLayers(ls...)
 	}
 	ls := make([]graph.Undirected, d)
-	for l, m := range mm.layers {
-		switch {
-		case mm.w[l] < 0:
-			ls[l] = m.buildWeightedSigned(-1).(graph.Undirected)
-		case m.unit && l < len(c.Unweight) && c.Unweight[l]:
-			ls[l] = m.buildUnweighted().(graph.Undirected)
-		default:
-			ls[l] = m.buildWeighted().(graph.Undirected)
-		}
+	for l := range mm.layers {
+		ls[l] = mm.layerGraph(c, l).(graph.Undirected)
 	}
 	return community.NewUndirectedLayers(ls...)
 }
@@ -374,6 +407,9 @@ func checkQMx(c mxCase) *vk.Failure {
 		}
 		if mm.w[l] < 0 {
 			vk.Class("qmx:negative-layer")
+			if mm.unweightedLayer(c, l) {
+				vk.Class("qmx:negative-layer-unweighted-container")
+			}
 		}
 		sum, norm := qMatrix(m.w, lab, mm.res[l])
 		if norm == 0 {
@@ -393,15 +429,13 @@ func checkQMx(c mxCase) *vk.Failure {
 		return f
 	}
 	// sign mismatch between layer weight and edge weights must panic
+	// (containers that are not Weighted carry no sign and are skipped)
 	for l, m := range mm.layers {
-		if len(m.edges) > 0 && mm.w[l] != 0 {
+		if len(m.edges) > 0 && mm.w[l] != 0 && !mm.unweightedLayer(c, l) {
 			w := make([]float64, d)
 			copy(w, mm.w)
 			w[l] = -w[l]
 			if f := vk.MustPanic("qmx-sign-mismatch-must-panic", func() { community.QMultiplex(g, comms, w, mm.resArg) }); f != nil {
-				if unw := l < len(c.Unweight) && c.Unweight[l] && m.unit && mm.w[l] > 0; unw {
-					break // unweighted containers carry no sign
-				}
 				return f
 			}
 			break
@@ -414,15 +448,19 @@ func drawMx(t *rapid.T, maxN int, allowNilW, forQ bool) mxCase {
 	c := mxCase{}
 	c.Directed = rapid.Bool().Draw(t, "directed")
 	d := rapid.IntRange(1, 3).Draw(t, "depth")
-	base := drawGraph(t, c.Directed, false, maxN)
+	base := drawGraph(t, c.Directed, rapid.IntRange(0, 2).Draw(t, "unitbase") == 0, maxN)
 	c.N, c.IDMode = base.N, base.IDMode
 	c.Layers = append(c.Layers, base.Edges)
 	for l := 1; l < d; l++ {
 		switch rapid.IntRange(0, 3).Draw(t, "layercls") {
 		case 0: // same topology, new weights
 			es := append([]edgeT(nil), base.Edges...)
+			unit := rapid.IntRange(0, 2).Draw(t, "unitlayer") == 0
 			for i := range es {
-				es[i].W = vk.F(rapid.SampledFrom(weightSet).Draw(t, "w"))
+				es[i].W = 1
+				if !unit {
+					es[i].W = vk.F(rapid.SampledFrom(weightSet).Draw(t, "w"))
+				}
 			}
 			c.Layers = append(c.Layers, es)
 		case 1: // edgeless layer
